@@ -24,7 +24,7 @@ import json, os
 from vlib import *
 
 KINDS = {"r": 0, "s": 1, "p": 2, "c": 3}
-NQUICK, NTHOROUGH = 800, 16000
+NQUICK, NTHOROUGH = 800, 12000
 CONSTS = {}   # constants printed by the executor (read from the built code)
 
 
@@ -778,6 +778,12 @@ def run(ck):
             fails2, _ = monitors(c, o2, thr)
             if not fails2:
                 ck.cov["monitor_flakes"] = ck.cov.get("monitor_flakes", 0) + 1
+                o1 = obs[c["name"]]
+                d = [j for j in range(len(o2)) if o1[j] != o2[j]]
+                if d and len(ck.cov.setdefault("flake_details", [])) < 5:
+                    j = d[0]
+                    ck.cov["flake_details"].append({"schedule": c["name"], "turn": j, "spec": c["turns"][j], "first_run": o1[j], "second_run": o2[j],
+                                                    "note": "a monitor failed on the first execution only (%s)" % (fails[0][2],)})
                 obs[c["name"]] = o2
                 continue
             fails, o = fails2, o2
@@ -835,6 +841,13 @@ def run(ck):
             b2 = model_check(ck, [c], {c["name"]: o2}, thr, "r")
             if b2 is not None and not b2:
                 ck.cov["model_flakes"] = ck.cov.get("model_flakes", 0) + 1
+                o1 = obs[c["name"]]
+                d = [j for j in range(len(o2)) if o1[j] != o2[j]]
+                if d and len(ck.cov.setdefault("flake_details", [])) < 5:
+                    j = d[0]
+                    ck.cov["flake_details"].append({"schedule": c["name"], "turn": j, "spec": c["turns"][j], "first_run": o1[j], "second_run": o2[j],
+                                                    "note": "the first execution differed from the model, a second execution on a fresh NodeHost agreed"})
+                obs[c["name"]] = o2
                 continue
             obs[c["name"]] = o2
         confirmed.append(c)
